@@ -3,6 +3,7 @@ package rules
 
 import (
 	"sort"
+	"sync"
 
 	"spgverif/internal/core"
 )
@@ -57,4 +58,17 @@ func Forget(p *core.Program) {
 	delete(rolesCache, p)
 	rolesMu.Unlock()
 	core.Forget(p)
+}
+
+// runMu serialises rule evaluation: some rule sets keep per-program working
+// state in package variables (the CLI model of C17, token field names), so two
+// programs (thorough-tier controls are analysed concurrently) must not be
+// evaluated at the same time. Loading and SSA construction stay parallel.
+var runMu sync.Mutex
+
+// RunLocked evaluates the property's rules on p under the evaluation lock.
+func (pr *Property) RunLocked(p *core.Program, r *core.Report) {
+	runMu.Lock()
+	defer runMu.Unlock()
+	pr.Run(p, r)
 }
